@@ -290,7 +290,11 @@ class World:
         self.outcomes = [RankOutcome() for _ in range(size)]
         self.failed = False
         # collectives
-        self._barrier = threading.Barrier(size)
+        self._bcv = threading.Condition()
+        self._bgen = 0
+        self._barrived = 0
+        self._nfailed = 0
+        self._ndone = 0
         self._slots: list[Any] = [None] * size
         self._kinds: list[Any] = [None] * size
         self.coll_log: list[list[tuple[str, Any]]] = [[] for _ in range(size)]
@@ -336,14 +340,35 @@ class World:
         return vals
 
     def _bwait(self):
-        if self.failed:
-            raise BlockedOnFailedPeer()
-        try:
-            self._barrier.wait(self.timeout)
-        except threading.BrokenBarrierError:
-            if self.failed:
-                raise BlockedOnFailedPeer() from None
-            raise FakeMPITimeout("collective timed out with no failed rank") from None
+        """generation barrier.  A rank that raised (or returned) never arrives; ranks waiting
+        for it are told so — but only if their generation has not completed in the meantime."""
+        with self._bcv:
+            gen = self._bgen
+            self._barrived += 1
+            if self._barrived == self.size:
+                self._barrived = 0
+                self._bgen += 1
+                self._bcv.notify_all()
+                return
+            t_end = time.time() + self.timeout
+            while self._bgen == gen:
+                if self._nfailed > 0:
+                    raise BlockedOnFailedPeer()
+                if self._ndone > 0:
+                    self.coll_mismatch.append("a rank returned while others wait in a collective")
+                    raise BlockedOnFailedPeer()
+                left = t_end - time.time()
+                if left <= 0:
+                    raise FakeMPITimeout("collective timed out with no failed rank")
+                self._bcv.wait(min(left, 1.0))
+
+    def _leave(self, failed: bool):
+        with self._bcv:
+            if failed:
+                self._nfailed += 1
+            else:
+                self._ndone += 1
+            self._bcv.notify_all()
 
     # ---------------------------------------------------------------- point to point
     def _isend(self, rank, buf, dest, tag):
@@ -454,10 +479,10 @@ class World:
         except BaseException as e:          # noqa: BLE001 — what the real code raised
             out.status, out.exc = "raised", e
             self.failed = True
-            if not self.scheduled:
-                self._barrier.abort()
         finally:
             _tls.world = None
+            if not self.scheduled:
+                self._leave(out.status != "ok")
             if self.scheduled:
                 with self._cv:
                     self._state[rank] = "done"
